@@ -69,7 +69,8 @@ std::string opdiff(const M &L, const sg::Crs<double> &A) {
     std::ostringstream e;
     if ((int)backend::rows(L) * br != n || (int)backend::cols(L) * bc != n) { e << "level-0 matrix is " << backend::rows(L) * br << "x" << backend::cols(L) * bc << " scalars, system has " << n; return e.str(); }
     std::vector<double> D((size_t)n * n, 0.0), R((size_t)n * n, 0.0);
-    for (int i = 0; i < n; ++i) for (ptrdiff_t j = A.ptr[i]; j < A.ptr[i + 1]; ++j) R[(size_t)i * n + A.col[j]] += A.val[j];
+    typedef typename math::scalar_of<V>::type Sc;      // a single-precision formulation holds the entries rounded to float
+    for (int i = 0; i < n; ++i) for (ptrdiff_t j = A.ptr[i]; j < A.ptr[i + 1]; ++j) R[(size_t)i * n + A.col[j]] += (double)(Sc)A.val[j];
     for (size_t I = 0; I < backend::rows(L); ++I) for (auto a = backend::row_begin(L, I); a; ++a) {
         V v = a.value();
         if constexpr (math::static_rows<V>::value > 1) { for (int p = 0; p < br; ++p) for (int q = 0; q < bc; ++q) D[(size_t)(I * br + p) * n + (a.col() * bc + q)] += (double)v(p, q); }
